@@ -372,8 +372,8 @@ VARIANTS = [
      "old": "          else:\n" + _HOMO,
      "new": "          elif len(instance_param.bindings) > 1:\n            pass\n          else:\n" + _HOMO},
     {"name": "protocol-attributes-dunder-skipped", "rule": "R2.27", "file": MATCHER, "expect": "fire",
-     "old": "    for attribute in other_type.protocol_attributes:\n",
-     "new": "    for attribute in other_type.protocol_attributes:\n"
+     "old": "    for attribute in sorted(other_type.protocol_attributes):\n",
+     "new": "    for attribute in sorted(other_type.protocol_attributes):\n"
             "      if attribute.startswith(\"__\"):\n        continue\n"},
     {"name": "callable-args-early-success", "rule": "R2.27", "file": MATCHER, "expect": "fire",
      "old": "      new_subst = param_match(left_arg, right_arg, subst)\n      if new_subst is None:\n        # Flip actual and expected to enforce",
